@@ -324,17 +324,23 @@ Lemma copy_spec d :
 Proof. split; reflexivity. Qed.
 
 (* every value or error array computed by an operation is a new array *)
-Lemma computed_value_fresh o r : p_value (prov_of (OBin o r)) = Fresh.
-Proof. destruct o, r; reflexivity. Qed.
+Lemma computed_value_fresh o r :
+  p_value (prov_of (OBin o r)) = Fresh /\ p_value (prov_of (OAug o r)) = Fresh.
+Proof. destruct o, r; split; reflexivity. Qed.
+
+(* an augmented assignment has the value semantics of the plain operator *)
+Lemma aug_is_bin d o r : run_op d (OAug o r) = run_op d (OBin o r).
+Proof. reflexivity. Qed.
 
 (* ---- chains ---- *)
 
 Definition wf_op (o : op) : Prop :=
-  match o with OBin _ r => wf_rhs r | _ => True end.
+  match o with OBin _ r | OAug _ r => wf_rhs r | _ => True end.
 
 Lemma run_op_wf d o x : wf d -> wf_op o -> run_op d o = Ok x -> wf x.
 Proof.
-  intros Hd Ho. destruct o as [b r| |m|].
+  intros Hd Ho. destruct o as [b r|b r| |m|].
+  - now apply binop_wf.
   - now apply binop_wf.
   - cbn. intros E; inversion E; now subst.
   - now apply mask_wf.
@@ -357,7 +363,8 @@ Proof.
   induction ops as [|o ops IH]; intros d x Hd; cbn.
   - intros E; inversion E; now subst.
   - destruct (run_op d o) as [d'|c] eqn:E1; [|discriminate].
-    apply IH. destruct o as [b r| |m|]; cbn in E1.
+    apply IH. destruct o as [b r|b r| |m|]; cbn in E1.
+    + eapply binop_error_not_neg; eauto.
     + eapply binop_error_not_neg; eauto.
     + inversion E1; now subst.
     + destruct (Nat.eqb _ _); [|discriminate]. inversion E1; now subst.
@@ -396,7 +403,7 @@ Definition is_squeeze (o : op) : bool := match o with OSqueeze => true | _ => fa
 (* operations that can change the shape: squeeze, and an ndarray operand (numpy
    broadcasting may enlarge the value when __init__ accepts the result) *)
 Definition may_reshape (o : op) : bool :=
-  match o with OSqueeze | OBin _ (RArr _ _) => true | _ => false end.
+  match o with OSqueeze | OBin _ (RArr _ _) | OAug _ (RArr _ _) => true | _ => false end.
 
 Lemma run_op_keeps d o x :
   run_op d o = Ok x ->
@@ -404,7 +411,10 @@ Lemma run_op_keeps d o x :
   (is_squeeze o = false -> bins x = bins d) /\
   (may_reshape o = false -> shape x = shape d).
 Proof.
-  destruct o as [b r| |m|]; intros E.
+  destruct o as [b r|b r| |m|]; intros E.
+  - destruct (binop_keeps _ _ _ _ E) as (Hb & Hn & Hs). rewrite Hb.
+    repeat split; auto using sublist_refl.
+    intros Hr. apply Hs. destruct r; cbn in *; auto; discriminate.
   - destruct (binop_keeps _ _ _ _ E) as (Hb & Hn & Hs). rewrite Hb.
     repeat split; auto using sublist_refl.
     intros Hr. apply Hs. destruct r; cbn in *; auto; discriminate.
